@@ -210,7 +210,7 @@ def random_history(rng: random.Random, idx: int, disk_root: Path, length: int) -
         if r < 0.22:
             fname = rng.choice(sorted(names))
             fd = names[fname]
-            st = pcall.func_state(pu, fname, fd["outputs"], cache_flag[fname])
+            st = pcall.func_state(pu, fname, fd["outputs"], cache_flag[fname], base=names[fname])
             kind = rng.choice(["update_defaults", "update_bound", "update_bound", "replace"])
             blank = {"f": "", "p": "", "v": {"f": "", "a": []}, "func": pcall.BLANK_FUNC}
             nmut += 1
@@ -229,8 +229,10 @@ def random_history(rng: random.Random, idx: int, disk_root: Path, length: int) -
                 op = {"op": "mutate", "kind": kind, **blank, "f": fname, "p": p, "v": {"f": f"@b{nmut}_{p}", "a": []}}
             else:
                 new = dict(st)
-                how = rng.choice(["reverse", "toggle", "shuffle"])
-                if how == "toggle" or len(st["params"]) < 2:
+                how = rng.choice(["reverse", "toggle", "shuffle", "impl"])
+                if how == "impl":
+                    new["retnone"] = not st.get("retnone", False)      # another implementation, same signature
+                elif how == "toggle" or len(st["params"]) < 2:
                     new["cache"] = not st["cache"]
                 elif how == "reverse":
                     new["params"] = list(reversed(st["params"]))
@@ -239,6 +241,7 @@ def random_history(rng: random.Random, idx: int, disk_root: Path, length: int) -
                     rng.shuffle(ps)
                     new["params"] = ps
                 cache_flag[fname] = new["cache"]
+                names[fname] = new
                 op = {"op": "mutate", "kind": kind, **blank, "f": fname, "func": new}
             prev_call = None
         elif prev_call is not None and r < 0.5:
@@ -439,10 +442,10 @@ def run(ctx: Ctx) -> None:
     else:
         # the as-is runs only exhibit and export: f2 completely (every 4th history that ends well is printed), of f3
         # the half of the instances that falls into the even shards; the repaired design is checked on everything
-        specs = [dict(name="asis", n=2, fam="f2", maxlen=4, maxmut=1, scheme="asis", export=True, nshards=16, exportmod=4, invs=""),
-                 dict(name="asis3", n=3, fam="f3", maxlen=3, maxmut=1, scheme="asis", export=True, nshards=32,
-                      shards=range(0, 32, 2), exportmod=4, invs=""),
-                 dict(name="rep", n=2, fam="f2", maxlen=4, maxmut=2, scheme="repaired", export=False, nshards=16, invs=rep_invs),
+        specs = [dict(name="asis", n=2, fam="f2", maxlen=4, maxmut=1, scheme="asis", export=True, nshards=32, exportmod=4, invs=""),
+                 dict(name="rep", n=2, fam="f2", maxlen=4, maxmut=2, scheme="repaired", export=False, nshards=32, invs=rep_invs),
+                 dict(name="asis3", n=3, fam="f3", maxlen=3, maxmut=1, scheme="asis", export=True, nshards=64,
+                      shards=range(0, 64, 2), exportmod=4, invs=""),
                  dict(name="rep3", n=3, fam="f3", maxlen=3, maxmut=1, scheme="repaired", export=False, nshards=16, invs=rep_invs),
                  dict(name="repu2", n=2, fam="u2", maxlen=3, maxmut=1, scheme="repaired", export=False, nshards=16, invs=rep_invs)]
         budget = 8000
